@@ -601,6 +601,38 @@ func (w *World) solve(obls []*Obligation, timeoutMs int, thorough bool, stats *S
 		}(o)
 	}
 	wg.Wait()
+	// last resort for obligations nobody decided: one at a time, with the machine to itself and a long limit. A query
+	// that takes a second on an idle machine can run into the limits above when many checks share the cores; an
+	// undecided obligation is reported as a violation, so a load-induced `unknown` would be a false alarm.
+	retried := 0
+	for _, o := range hard {
+		if o.Status != "unknown" && o.Status != "timeout" {
+			continue
+		}
+		if retried >= 6 {
+			break // a genuinely broken tree can leave many quantified goals open; do not spend minutes on each
+		}
+		retried++
+		// (without model production: asking for models changes how z3 treats the quantifiers, and the batch stage,
+		// which decides these goals on an idle machine, does not ask for them either)
+		rs := raceSingle(w.script(o, false), timeoutMs*9, []string{"z3-new", "z3"})
+		for _, r := range rs {
+			stats.Secs[r.Solver] += r.Secs
+			want := "unsat"
+			if o.Cover {
+				want = "sat"
+			}
+			if r.Status == want {
+				o.Status, o.Solver = want, r.Solver
+				stats.PerBackend[r.Solver+"(retry)"]++
+				break
+			}
+			if r.Status == "sat" || r.Status == "unsat" {
+				o.Status, o.Solver, o.Output = r.Status, r.Solver, r.Output
+				break
+			}
+		}
+	}
 	if thorough {
 		// every discharged obligation must also be confirmed individually by a second solver
 		var again []*Obligation
